@@ -249,8 +249,49 @@ def call_external(h: Any, name: str, args: List[AV], kwargs: Dict[str, AV], node
         raise h.unsupported(node, f"type({v!r})")
     if short == "id":
         return Term("id", tuple(args), ctx.new_id())
+    if short == "getattr" and len(args) in (2, 3) and isinstance(args[1], Const) and isinstance(args[1].value, str) and args[1].value.isidentifier():
+        # the attribute name is a constant of the analysed source (e.g. taken from a module-level table): plain attribute access
+        if len(args) == 3:
+            try:
+                return h.getattr(args[0], args[1].value, node)
+            except AbsRaise as r:
+                if isinstance(r.exc, HostExc) and r.exc.name == "AttributeError":
+                    return args[2]
+                raise
+        return h.getattr(args[0], args[1].value, node)
+    if short == "hasattr" and len(args) == 2 and isinstance(args[1], Const) and isinstance(args[1].value, str) and isinstance(args[0], Inst):
+        try:
+            h.getattr(args[0], args[1].value, node)
+            return Const(True)
+        except AbsRaise as r:
+            if isinstance(r.exc, HostExc) and r.exc.name == "AttributeError":
+                return Const(False)
+            raise
     if short in ("getattr", "setattr", "hasattr", "eval", "exec", "globals", "locals", "vars", "__import__"):
         raise h.unsupported(node, f"dynamic feature {short}() (R00)")
+    if short in ("functools.reduce", "reduce") and len(args) == 3 and not kwargs:
+        # left fold = the loop it abbreviates, executed by the interpreter's own loop machinery (one generic
+        # iteration over abstract data, carried accumulator reported)
+        import ast as _ast
+
+        from .absint import Frame
+
+        cur = i.stack[-1] if i.stack else None
+        fr = Frame(cur.fi if cur is not None else None, cur.mod if cur is not None else None)
+        if cur is not None:
+            fr.self_av = cur.self_av
+        fr.locals.update({"__fold_f": args[0], "__fold_it": args[1], "__fold_acc": args[2]})
+        body = _ast.parse("for __fold_x in __fold_it:\n    __fold_acc = __fold_f(__fold_acc, __fold_x)").body
+        for st_ in body:
+            for sub in _ast.walk(st_):
+                if node is not None and hasattr(node, "lineno"):
+                    _ast.copy_location(sub, node)
+        i.stack.append(fr)
+        try:
+            i.exec_block(body, fr)
+        finally:
+            i.stack.pop()
+        return fr.locals["__fold_acc"]
     if short == "contextlib.suppress":
         return Term("suppress", tuple(args), ctx.new_id())
     if short == "collections.deque":
@@ -319,6 +360,37 @@ def call_external(h: Any, name: str, args: List[AV], kwargs: Dict[str, AV], node
         t = Term(short, tuple(args) + tuple(sorted(kwargs.items())), ctx.new_id())
         ctx.world[("truth", "term", t.id)] = r == "match"
         return t
+    if short == "json.JSONEncoder" and not args:
+        return Term("json.JSONEncoder", tuple(sorted(kwargs.items())), ctx.new_id())
+    if short in ("itertools.chain", "chain") and not kwargs:
+        out_items: List[AV] = []
+        for a in args:
+            kind_, payload_ = h.iterate(a, node)
+            if kind_ != "concrete":
+                raise h.unsupported(node, "itertools.chain over abstract data")
+            out_items.extend(payload_)
+        return i.new_list(out_items)
+    if short == "map" and len(args) == 2 and not kwargs:
+        kind_, payload_ = h.iterate(args[1], node)
+        if kind_ == "concrete":
+            return i.new_list([i.call(args[0], [x], {}, node) for x in payload_])
+        # over abstract data: the generator expression it abbreviates
+        import ast as _ast
+
+        from .absint import Frame
+
+        cur = i.stack[-1] if i.stack else None
+        fr = Frame(cur.fi if cur is not None else None, cur.mod if cur is not None else None)
+        fr.locals.update({"__map_f": args[0], "__map_it": args[1]})
+        expr = _ast.parse("(__map_f(__map_x) for __map_x in __map_it)", mode="eval").body
+        for sub in _ast.walk(expr):
+            if node is not None and hasattr(node, "lineno"):
+                _ast.copy_location(sub, node)
+        i.stack.append(fr)
+        try:
+            return i.eval(expr, fr)
+        finally:
+            i.stack.pop()
     if short in ("json.dumps",):
         if len(args) == 1 and isinstance(args[0], Const) and isinstance(args[0].value, str) and set(kwargs) <= {"ensure_ascii"} and all(isinstance(v, Const) for v in kwargs.values()):
             # A2: model of json.dumps on a constant string
@@ -440,6 +512,40 @@ def convert_number(h: Any, which: str, args: List[AV], node: Any) -> AV:
     raise h.unsupported(node, f"{which}({v!r})")
 
 
+def int_table_lookup(h: Any, d: PyDict, key: IntV, node: Any) -> Optional[AV]:
+    """d[key] for a symbolic integer key and a table with integer-constant keys.  Keys are grouped into maximal runs of
+    consecutive integers whose values are key + c (one outcome per run, like the range tests such a table replaces) or
+    a common constant; None means the key is absent."""
+    ctx = h.ctx
+    entries = []
+    for hk, val in d.items.items():
+        kav = d.keys_av[hk]
+        if not (isinstance(kav, Const) and isinstance(kav.value, int) and not isinstance(kav.value, bool)):
+            raise h.unsupported(node, "symbolic integer key in a table with non-integer keys")
+        entries.append((kav.value, val))
+    entries.sort(key=lambda e: e[0])
+    runs: List[Tuple[int, int, str, Any]] = []  # lo, hi, kind ('affine'|'const'), payload
+    for k, val in entries:
+        if isinstance(val, Const) and isinstance(val.value, int) and not isinstance(val.value, bool):
+            off = val.value - k
+            if runs and runs[-1][2] == "affine" and runs[-1][3] == off and runs[-1][1] == k - 1:
+                runs[-1] = (runs[-1][0], k, "affine", off)
+                continue
+            runs.append((k, k, "affine", off))
+        else:
+            if runs and runs[-1][2] == "const" and runs[-1][3] is val and runs[-1][1] == k - 1:
+                runs[-1] = (runs[-1][0], k, "const", val)
+                continue
+            runs.append((k, k, "const", val))
+    for lo, hi, kind, payload in runs:
+        # lo <= key <= hi ?
+        if ctx.decide_le0(Lin.k(lo) - key.lin) and ctx.decide_le0(key.lin - Lin.k(hi)):
+            if kind == "affine":
+                return h.from_lin(key.lin + Lin.k(payload))
+            return payload
+    return None
+
+
 STR_PREDICATES = {"isalnum", "isalpha", "isascii", "isdecimal", "isdigit", "isidentifier", "islower", "isnumeric", "isprintable", "isspace", "istitle", "isupper"}
 STR_ONLY_METHODS = STR_PREDICATES | {
     "startswith", "endswith", "lower", "upper", "casefold", "strip", "lstrip", "rstrip", "replace", "encode", "split", "rsplit",
@@ -533,6 +639,9 @@ def call_method(h: Any, recv: AV, name: str, args: List[AV], kwargs: Dict[str, A
                     if isinstance(kav, Const) and isinstance(kav.value, str) and len(kav.value) == 1 and h.char_is(args[0], kav.value):
                         return recv.items[k]
                 return default
+            if isinstance(args[0], IntV):
+                r_ = int_table_lookup(h, recv, args[0], node)
+                return default if r_ is None else r_
             try:
                 hk = hkey(args[0])
             except Unsupported:
@@ -771,6 +880,9 @@ def call_method(h: Any, recv: AV, name: str, args: List[AV], kwargs: Dict[str, A
         if all(e.kind == "yield" for e in recv.events):
             return call_method(h, PyList([e.value for e in recv.events]), name, args, kwargs, node)
         return Term("streammeth", (recv, name, tuple(args)), ctx.new_id())
+    if isinstance(recv, Term) and recv.op == "json.JSONEncoder" and name == "encode" and len(args) == 1 and not kwargs:
+        # JSONEncoder(**options).encode(x) is what json.dumps(x, **options) returns
+        return call_external(h, "json.dumps", list(args), dict(recv.args), node)
     if isinstance(recv, Term) and recv.op == "re.compile" and name in ("match", "fullmatch", "search"):
         if (
             h.regex_module.get(recv.id) == "re"
